@@ -17,6 +17,14 @@ static echs_evstrm_t mkstrm(const char *uid, const char *times, echs_oid_t *oid)
 	int allday = *times != 0;
 	for (const char *q = times; *q;) { int t = atoi(q); if (t < 100000 || t % 100000) allday = 0; while (*q && *q != ',') q++; if (*q) q++; }
 	p += sprintf(p, "BEGIN:VCALENDAR\nBEGIN:VEVENT\nUID:%s\nSUMMARY:x\n%s\n", uid, allday ? "DTSTART;VALUE=DATE:20300101" : "DTSTART:20300101T000000Z");
+	if (*times && !allday && uid[0] >= 'A' && uid[0] <= 'Z') {
+		/* an upper case UID: the same occurrences as an event of two RRULEs plus RDATEs (itself a merge inside the event):
+		 * DTSTART is the first time, both rules yield just that, the other times are RDATEs */
+		int t0 = atoi(times), d0 = t0 / 100000; t0 %= 100000;
+		p = ics; p += sprintf(p, "BEGIN:VCALENDAR\nBEGIN:VEVENT\nUID:%s\nSUMMARY:x\nDTSTART:203001%02dT%02d%02d%02dZ\nRRULE:FREQ=DAILY;COUNT=1\nRRULE:FREQ=WEEKLY;COUNT=1\n", uid, 1 + d0, t0 / 3600, t0 / 60 % 60, t0 % 60);
+		const char *q = times; while (*q && *q != ',') q++; if (*q) q++;
+		times = q;
+	}
 	if (*times) {
 		p += sprintf(p, allday ? "RDATE;VALUE=DATE:" : "RDATE:");
 		const char *q = times; int first = 1;
